@@ -82,12 +82,10 @@ Definition fa_line (b : list byte) (a e : nat) : option (list byte) :=
     [a] ranges over indices [af, ab), [b] over [bf, bb). *)
 Record seqlines := mkSL { sl_rec : fa_rec; af : nat; ab : nat; bf : nat; bb : nat }.
 
-(** [seq_lines()]; [None]: [seq_pos.len() - 1] underflows *)
+(** [seq_lines()]: [seq_pos.iter().zip(seq_pos.iter().skip(1))] never panics; with an empty [seq_pos] (no reader
+    returns such a record) the iterator is empty.  (The [option] is kept for the callers' sake.) *)
 Definition fa_seq_lines (r : fa_rec) : option seqlines :=
-  match rseqpos r with
-  | [] => None
-  | _ => let n := length (rseqpos r) in Some (mkSL r 0 n (Nat.min 1 n) n)
-  end.
+  let n := length (rseqpos r) in Some (mkSL r 0 n (Nat.min 1 n) n).
 
 Definition sl_item (s : seqlines) (i j : nat) : option (list byte) :=
   match nth_error (rseqpos (sl_rec s)) i, nth_error (rseqpos (sl_rec s)) j with
